@@ -73,7 +73,7 @@ def check(ctx):
             for part in partitions(rng, p, False):
                 lines += ["Enc iov %s" % part, "Enc vec %s" % part]
         # random payloads of all lengths
-        for i in range(3000 if ctx.thorough else 300):
+        for i in range(30000 if ctx.thorough else 300):
             p = gc.rand_payload(rng, name, rng.choice([0, 1, 2, 3, 7, 8, 31, 64, 300]))
             if name == "legacy":
                 lines.append("Enc plain %s" % gc.fmt(p))
